@@ -12,6 +12,8 @@ CONSTANTS
   CfiLayouts = {"none"}
   Isa = "x64"
   WithScopes = TRUE
+  Leads = {0, 2}
+  DropFnTables = {FALSE}
   ExtraData = {TRUE, FALSE}
   Retargets = {FALSE}
   AlignOpts = {0}
